@@ -148,7 +148,7 @@ def check_C11(tier):
                    "(patterns above 3), window offsets across each backend's register/spill boundary; the marker after the "
                    "substitution compares every new variable with the simultaneous assignment of the AxCut machine and "
                    "HeapInv checks that copies raised and drops released the reference counts exactly")
-lockstep.TAGS["C11"] = {"control", "env", "result", "value", "undef", "heap", "mem", "axcut"}
+lockstep.TAGS["C11"] = {"control", "env", "result", "value", "undef", "heap", "mem", "axcut", "leak"}
 
 
 # ---------------------------------------------------------------------------------------------- stage checks
